@@ -2676,28 +2676,28 @@ pub fn c03_x_r2p_e6_m1027<S: Src>(s: &mut S) {
 pub fn c01_q_l2b_lib_0x0_k0_m0<S: Src>(s: &mut S) {
     lib_rt_body(s, 0, 0, 0, 0, true, false)
 }
-pub fn c01_t_l2b_lib_1x1_k0_m0<S: Src>(s: &mut S) {
+pub fn c01_x_l2b_lib_1x1_k0_m0<S: Src>(s: &mut S) {
     lib_rt_body(s, 1, 1, 0, 0, true, false)
 }
-pub fn c01_t_l2b_lib_1x1_k4_m1023<S: Src>(s: &mut S) {
+pub fn c01_x_l2b_lib_1x1_k4_m1023<S: Src>(s: &mut S) {
     lib_rt_body(s, 1, 1, 4, 1023, true, false)
 }
-pub fn c01_t_l2b_lib_2x1_k2_m0<S: Src>(s: &mut S) {
+pub fn c01_x_l2b_lib_2x1_k2_m0<S: Src>(s: &mut S) {
     lib_rt_body(s, 2, 1, 2, 0, true, false)
 }
-pub fn c01_t_l2b_lib_1x2_k5_m7<S: Src>(s: &mut S) {
+pub fn c01_x_l2b_lib_1x2_k5_m7<S: Src>(s: &mut S) {
     lib_rt_body(s, 1, 2, 5, 7, true, false)
 }
-pub fn c01_t_l2b_lib_2x2_k0_m0<S: Src>(s: &mut S) {
+pub fn c01_x_l2b_lib_2x2_k0_m0<S: Src>(s: &mut S) {
     lib_rt_body(s, 2, 2, 0, 0, true, false)
 }
 pub fn c03_q_r2_lib_junk_0x0_k0_m0<S: Src>(s: &mut S) {
     lib_rt_body(s, 0, 0, 0, 0, false, true)
 }
-pub fn c03_t_r2_lib_junk_1x1_k6_m3<S: Src>(s: &mut S) {
+pub fn c03_x_r2_lib_junk_1x1_k6_m3<S: Src>(s: &mut S) {
     lib_rt_body(s, 1, 1, 6, 3, false, true)
 }
-pub fn c03_t_r2_lib_junk_1x1_k3_m1023<S: Src>(s: &mut S) {
+pub fn c03_x_r2_lib_junk_1x1_k3_m1023<S: Src>(s: &mut S) {
     lib_rt_body(s, 1, 1, 3, 1023, false, true)
 }
 pub fn c03_q_unsup_k39<S: Src>(s: &mut S) {
@@ -4939,14 +4939,14 @@ harnesses! { k, "sel_gds21_read.rs";
     #[kani::stub(std::str::from_utf8, from_utf8_model)] #[kani::stub(crate::data::GdsFloat64::encode, enc_bits)] #[kani::stub(crate::data::GdsFloat64::decode, dec_bits)] #[kani::stub(alloc::fmt::format, fmt_stub)] #[kani::stub(crate::read::GdsParser::next, stub_next)] #[kani::unwind(22)] c01_x_l2p_e6_m1027;
     #[kani::stub(std::str::from_utf8, from_utf8_model)] #[kani::stub(crate::data::GdsFloat64::encode, enc_bits)] #[kani::stub(crate::data::GdsFloat64::decode, dec_bits)] #[kani::stub(alloc::fmt::format, fmt_stub)] #[kani::stub(crate::read::GdsParser::next, stub_next)] #[kani::unwind(22)] c03_x_r2p_e6_m1027;
     #[kani::stub(std::str::from_utf8, from_utf8_model)] #[kani::stub(crate::data::GdsFloat64::encode, enc_bits)] #[kani::stub(crate::data::GdsFloat64::decode, dec_bits)] #[kani::stub(alloc::fmt::format, fmt_stub)] #[kani::stub(crate::read::GdsParser::next, stub_next)] #[kani::unwind(60)] c01_q_l2b_lib_0x0_k0_m0;
-    #[kani::stub(std::str::from_utf8, from_utf8_model)] #[kani::stub(crate::data::GdsFloat64::encode, enc_bits)] #[kani::stub(crate::data::GdsFloat64::decode, dec_bits)] #[kani::stub(alloc::fmt::format, fmt_stub)] #[kani::stub(crate::read::GdsParser::next, stub_next)] #[kani::unwind(60)] c01_t_l2b_lib_1x1_k0_m0;
-    #[kani::stub(std::str::from_utf8, from_utf8_model)] #[kani::stub(crate::data::GdsFloat64::encode, enc_bits)] #[kani::stub(crate::data::GdsFloat64::decode, dec_bits)] #[kani::stub(alloc::fmt::format, fmt_stub)] #[kani::stub(crate::read::GdsParser::next, stub_next)] #[kani::unwind(60)] c01_t_l2b_lib_1x1_k4_m1023;
-    #[kani::stub(std::str::from_utf8, from_utf8_model)] #[kani::stub(crate::data::GdsFloat64::encode, enc_bits)] #[kani::stub(crate::data::GdsFloat64::decode, dec_bits)] #[kani::stub(alloc::fmt::format, fmt_stub)] #[kani::stub(crate::read::GdsParser::next, stub_next)] #[kani::unwind(60)] c01_t_l2b_lib_2x1_k2_m0;
-    #[kani::stub(std::str::from_utf8, from_utf8_model)] #[kani::stub(crate::data::GdsFloat64::encode, enc_bits)] #[kani::stub(crate::data::GdsFloat64::decode, dec_bits)] #[kani::stub(alloc::fmt::format, fmt_stub)] #[kani::stub(crate::read::GdsParser::next, stub_next)] #[kani::unwind(60)] c01_t_l2b_lib_1x2_k5_m7;
-    #[kani::stub(std::str::from_utf8, from_utf8_model)] #[kani::stub(crate::data::GdsFloat64::encode, enc_bits)] #[kani::stub(crate::data::GdsFloat64::decode, dec_bits)] #[kani::stub(alloc::fmt::format, fmt_stub)] #[kani::stub(crate::read::GdsParser::next, stub_next)] #[kani::unwind(60)] c01_t_l2b_lib_2x2_k0_m0;
+    #[kani::stub(std::str::from_utf8, from_utf8_model)] #[kani::stub(crate::data::GdsFloat64::encode, enc_bits)] #[kani::stub(crate::data::GdsFloat64::decode, dec_bits)] #[kani::stub(alloc::fmt::format, fmt_stub)] #[kani::stub(crate::read::GdsParser::next, stub_next)] #[kani::unwind(60)] c01_x_l2b_lib_1x1_k0_m0;
+    #[kani::stub(std::str::from_utf8, from_utf8_model)] #[kani::stub(crate::data::GdsFloat64::encode, enc_bits)] #[kani::stub(crate::data::GdsFloat64::decode, dec_bits)] #[kani::stub(alloc::fmt::format, fmt_stub)] #[kani::stub(crate::read::GdsParser::next, stub_next)] #[kani::unwind(60)] c01_x_l2b_lib_1x1_k4_m1023;
+    #[kani::stub(std::str::from_utf8, from_utf8_model)] #[kani::stub(crate::data::GdsFloat64::encode, enc_bits)] #[kani::stub(crate::data::GdsFloat64::decode, dec_bits)] #[kani::stub(alloc::fmt::format, fmt_stub)] #[kani::stub(crate::read::GdsParser::next, stub_next)] #[kani::unwind(60)] c01_x_l2b_lib_2x1_k2_m0;
+    #[kani::stub(std::str::from_utf8, from_utf8_model)] #[kani::stub(crate::data::GdsFloat64::encode, enc_bits)] #[kani::stub(crate::data::GdsFloat64::decode, dec_bits)] #[kani::stub(alloc::fmt::format, fmt_stub)] #[kani::stub(crate::read::GdsParser::next, stub_next)] #[kani::unwind(60)] c01_x_l2b_lib_1x2_k5_m7;
+    #[kani::stub(std::str::from_utf8, from_utf8_model)] #[kani::stub(crate::data::GdsFloat64::encode, enc_bits)] #[kani::stub(crate::data::GdsFloat64::decode, dec_bits)] #[kani::stub(alloc::fmt::format, fmt_stub)] #[kani::stub(crate::read::GdsParser::next, stub_next)] #[kani::unwind(60)] c01_x_l2b_lib_2x2_k0_m0;
     #[kani::stub(std::str::from_utf8, from_utf8_model)] #[kani::stub(crate::data::GdsFloat64::encode, enc_bits)] #[kani::stub(crate::data::GdsFloat64::decode, dec_bits)] #[kani::stub(alloc::fmt::format, fmt_stub)] #[kani::stub(crate::read::GdsParser::next, stub_next)] #[kani::unwind(60)] c03_q_r2_lib_junk_0x0_k0_m0;
-    #[kani::stub(std::str::from_utf8, from_utf8_model)] #[kani::stub(crate::data::GdsFloat64::encode, enc_bits)] #[kani::stub(crate::data::GdsFloat64::decode, dec_bits)] #[kani::stub(alloc::fmt::format, fmt_stub)] #[kani::stub(crate::read::GdsParser::next, stub_next)] #[kani::unwind(60)] c03_t_r2_lib_junk_1x1_k6_m3;
-    #[kani::stub(std::str::from_utf8, from_utf8_model)] #[kani::stub(crate::data::GdsFloat64::encode, enc_bits)] #[kani::stub(crate::data::GdsFloat64::decode, dec_bits)] #[kani::stub(alloc::fmt::format, fmt_stub)] #[kani::stub(crate::read::GdsParser::next, stub_next)] #[kani::unwind(60)] c03_t_r2_lib_junk_1x1_k3_m1023;
+    #[kani::stub(std::str::from_utf8, from_utf8_model)] #[kani::stub(crate::data::GdsFloat64::encode, enc_bits)] #[kani::stub(crate::data::GdsFloat64::decode, dec_bits)] #[kani::stub(alloc::fmt::format, fmt_stub)] #[kani::stub(crate::read::GdsParser::next, stub_next)] #[kani::unwind(60)] c03_x_r2_lib_junk_1x1_k6_m3;
+    #[kani::stub(std::str::from_utf8, from_utf8_model)] #[kani::stub(crate::data::GdsFloat64::encode, enc_bits)] #[kani::stub(crate::data::GdsFloat64::decode, dec_bits)] #[kani::stub(alloc::fmt::format, fmt_stub)] #[kani::stub(crate::read::GdsParser::next, stub_next)] #[kani::unwind(60)] c03_x_r2_lib_junk_1x1_k3_m1023;
     #[kani::stub(std::str::from_utf8, from_utf8_model)] #[kani::stub(crate::data::GdsFloat64::encode, enc_bits)] #[kani::stub(crate::data::GdsFloat64::decode, dec_bits)] #[kani::stub(alloc::fmt::format, fmt_stub)] #[kani::stub(crate::read::GdsParser::next, stub_next)] #[kani::unwind(16)] c03_q_unsup_k39;
     #[kani::stub(std::str::from_utf8, from_utf8_model)] #[kani::stub(crate::data::GdsFloat64::encode, enc_bits)] #[kani::stub(crate::data::GdsFloat64::decode, dec_bits)] #[kani::stub(alloc::fmt::format, fmt_stub)] #[kani::stub(crate::read::GdsParser::next, stub_next)] #[kani::unwind(16)] c03_s_unsup_k3a;
     #[kani::stub(std::str::from_utf8, from_utf8_model)] #[kani::stub(crate::data::GdsFloat64::encode, enc_bits)] #[kani::stub(crate::data::GdsFloat64::decode, dec_bits)] #[kani::stub(alloc::fmt::format, fmt_stub)] #[kani::stub(crate::read::GdsParser::next, stub_next)] #[kani::unwind(16)] c03_s_unsup_k3b;
